@@ -2,8 +2,12 @@
 
 Oracle on the REAL `Actor` / `BackgroundService` / `run` (independent of the Lean model), per case:
   restart-chain   : the entries/exits of `_run()` of every run-loop task form a chain enter 0, exit 0, enter 1, …;
-                    `enter n+1` only after `exit n` with an Exception and n < limit, not before the restart delay
-  restart-missing : after `exit n` with an Exception and n < limit, with no cancel()/stop() touching the actor
+                    `enter n+1` only after `exit n` with a FAILURE and n < limit, not before the restart delay.
+                    A failure is an error that is an `Exception` (plain, or an ExceptionGroup); a return, a
+                    CancelledError, any other BaseException (custom classes shaped like SystemExit/KeyboardInterrupt)
+                    and a BaseExceptionGroup that is not an ExceptionGroup (a non-Exception member, e.g. from a child
+                    of a TaskGroup) are not (`actor_gen.FAILURE_KINDS`, computed with isinstance on the real errors)
+  restart-missing : after `exit n` with a failure and n < limit, with no cancel()/stop() touching the actor
                     during the delay, `_run()` is entered again exactly when the delay has elapsed
   single-run      : invocations of one actor (over all its run-loop tasks) never overlap in time;
                     `start()` on a running actor creates no task
@@ -31,7 +35,9 @@ from . import actor_gen as g
 from .common import Ctx, python_flags
 
 RULE = ("1-3 probe actors (restart limit 0/1/2/3/None, 1-4 scripted `_run` invocations with 0-3 await points, outcome "
-        "return/Exception/BaseException/CancelledError, scripted reaction to a delivered cancellation incl. clean-up "
+        "return/Exception/BaseException/CancelledError raised by the code itself/custom BaseException subclasses shaped "
+        "like SystemExit and KeyboardInterrupt/ExceptionGroup/BaseExceptionGroup of Exceptions only (= ExceptionGroup)/"
+        "BaseExceptionGroup of non-Exceptions/mixed BaseExceptionGroup, scripted reaction to a delivered cancellation incl. clean-up "
         "delay and 'exception while being cancelled'), 1-7 control groups of 1-3 synchronous ops (start/cancel/stop/"
         "wait/add task/run) at instants on a half-second lattice ± 1 ms (just before/after the internal timers: run end, "
         "restart-delay expiry, clean-up end); extra tasks may register a clean-up task when cancelled; thorough adds the "
@@ -89,7 +95,7 @@ def oracle(case: dict, obs: dict, facts: dict) -> list[tuple[str, dict]]:
                     elif prev[0] != "exit" or prev[1] + 1 != k:
                         bad.append(("restart-chain", {"actor": a, "task": li, "why": "entry without a preceding exit", "hist": h}))
                     else:
-                        if prev[2] != "exc":
+                        if prev[2] not in g.FAILURE_KINDS:
                             bad.append(("restart-chain", {"actor": a, "task": li, "why": f"re-invoked after {prev[2]}", "hist": h}))
                         if limit is not None and prev[1] >= limit:
                             bad.append(("restart-chain", {"actor": a, "task": li, "why": "re-invoked beyond the restart limit", "hist": h}))
@@ -103,14 +109,14 @@ def oracle(case: dict, obs: dict, facts: dict) -> list[tuple[str, dict]]:
                     else:
                         intervals[-1][1] = t
                 prev = ev
-            if prev is not None and prev[0] == "exit" and prev[2] == "exc" and (limit is None or prev[1] < limit):
+            if prev is not None and prev[0] == "exit" and prev[2] in g.FAILURE_KINDS and (limit is None or prev[1] < limit):
                 due = prev[3] + delay
                 disturbed = any(prev[3] <= c <= due for c in cancel_ops) or any(s <= due and e >= prev[3] for s, e in stop_windows)
                 if due < horizon and not disturbed:
                     bad.append(("restart-missing", {"actor": a, "task": li, "due": due, "hist": h}))
             # an `exit exc` that WAS followed by an entry: must be exactly at the expiry of the delay
             for x, y in zip(h, h[1:]):
-                if x[0] == "exit" and y[0] == "enter" and x[2] == "exc" and y[2] != x[3] + delay:
+                if x[0] == "exit" and y[0] == "enter" and x[2] in g.FAILURE_KINDS and y[2] != x[3] + delay:
                     late = y[2] > x[3] + delay
                     if late:
                         bad.append(("restart-missing", {"actor": a, "task": li, "why": "re-invoked later than the restart delay", "hist": h}))
@@ -168,7 +174,7 @@ def oracle(case: dict, obs: dict, facts: dict) -> list[tuple[str, dict]]:
             others = {r[0] for o in overlapping for r in o["raised"]}
             for l in sorted(in_scope):
                 st = snap["tasks"].get(l)
-                if st in ("exc", "base") and [l, st] not in raised and l not in others and not overlapping_run:
+                if st in g.ERROR_KINDS and [l, st] not in raised and l not in others and not overlapping_run:
                     bad.append((f"{kind}-surfaces", {"actor": a, "call": ci, "why": "error not surfaced", "task": l, "state": st, "raised": raised}))
             if kind == "wait" and not overlapping and not overlapping_run:
                 exp_cancelled = sum(1 for l in in_scope if snap["tasks"].get(l) == "cancelled")
@@ -227,7 +233,7 @@ def check_case(ctx: Ctx, case: dict, extra_tags: tuple[str, ...] = ()) -> dict:
 # --------------------------------------------------------------------------------------- cancel_and_await
 def oracle_caa(case: dict, obs: dict, facts: dict) -> list[tuple[str, dict]]:
     """`cancel_and_await` returned ⇒ `task.done()`; it swallows the task's CancelledError and propagates only the
-    task's own Exception / BaseException (nothing when the task was already done at the call)."""
+    task's own Exception / BaseException / group (nothing when the task was already done at the call)."""
     bad = []
     for ci, c in enumerate(facts["callers"]):
         if c["ret"] is None:
@@ -242,7 +248,7 @@ def oracle_caa(case: dict, obs: dict, facts: dict) -> list[tuple[str, dict]]:
             if c["raised"] != "none":
                 bad.append(("cancel-and-await-outcome", {"call": ci, "why": "raised although the task was done at the call", "raised": c["raised"]}))
         else:
-            want = facts["state"] if facts["state"] in ("exc", "base") else "none"
+            want = facts["state"] if facts["state"] in g.ERROR_KINDS else "none"
             if c["raised"] != want:
                 bad.append(("cancel-and-await-outcome", {"call": ci, "raised": c["raised"], "task_state": facts["state"]}))
     return bad
